@@ -1012,6 +1012,20 @@ def line_fit_wtls(x,y,u_x=None,u_y=None,a_b=None,r_xy=None):
     x1 = alpha0 - HALF_PI
     x2 = alpha0 + HALF_PI
 
+    # chi-squared has period pi in alpha, so `x1`, `alpha0`, `x2` bracket a
+    # minimum only when chi-squared at `alpha0` is below its value at the ends.
+    # A poor initial estimate can fail this (`_dbrent` would then walk to an end
+    # of the interval and return it): centre the interval on the least value
+    # found on a coarse grid over one period instead.
+    _chi_sq = lambda a: value( chi_sq( UncertainReal._constant(a) ) )
+    _chi_sq_0 = _chi_sq(alpha0)
+    if not ( _chi_sq_0 < _chi_sq(x1) and _chi_sq_0 < _chi_sq(x2) ):
+        alpha0 = min(
+            ( x1 + i*math.pi/36 for i in xrange(36) ), key=_chi_sq
+        )
+        x1 = alpha0 - HALF_PI
+        x2 = alpha0 + HALF_PI
+
     # `brent` requires three points that bracket the minimum.
     # the `x1`, `alpha0`, `x2` parameters should be real, 
     # but `data` will return an uncertain number 
